@@ -20,7 +20,13 @@ type litCase struct {
 	cat  string // category for class keys
 }
 
+// whole: the case's text is a whole program of several literals (its completion value is what is compared)
+func (lc litCase) whole() bool { return strings.HasPrefix(lc.cat, "sequence") }
+
 func (lc litCase) program() string {
+	if lc.whole() {
+		return lc.text
+	}
 	for _, c := range litContexts {
 		if strings.HasPrefix(lc.cat, c.name+"/") {
 			return strings.ReplaceAll(c.tmpl, "%s", lc.text)
@@ -37,7 +43,7 @@ var litContexts = []struct{ name, tmpl string }{
 	{"member-key", "v = {}\nv[%s] = 1\nObject.keys(v)[0]"},
 	{"array-element", "v = [0, %s, 0][1]"},
 	{"call-argument", "v = (function (a, b) { return b })(0, %s)"},
-	{"operand", "v = [%s + \"\", typeof %s][0]"},
+	{"operand", "v = [%s + \"\", %s][0]"},
 	// the literal ends a statement and the next statement begins with a bracket: the third output is printed WITHOUT
 	// semicolons, so the printer has to put one back right behind the literal
 	{"before-bracket-statement", "v = %s;\n[v][0]"},
@@ -48,7 +54,7 @@ var litContexts = []struct{ name, tmpl string }{
 // prettyFor: the pretty configuration a literal case is printed with (default options; no semicolons for the
 // before-bracket-statement position).
 func prettyFor(lc litCase) Cfg {
-	if strings.HasPrefix(lc.cat, "before-bracket-statement/") {
+	if strings.HasPrefix(lc.cat, "before-bracket-statement/") || strings.HasPrefix(lc.cat, "sequence-nosemi/") {
 		return CfgPrettyTabN
 	}
 	return CfgPretty
@@ -72,7 +78,7 @@ func checkLiterals(t *fw.T, lits []litCase, label string) {
 	}
 	for _, lc := range lits {
 		src := lc.program()
-		if plugged {
+		if plugged && !lc.whole() {
 			m := lc
 			m.text = "@" + lc.text
 			src = m.program()
@@ -82,7 +88,7 @@ func checkLiterals(t *fw.T, lits []litCase, label string) {
 		ok := t.Guard("parse/compile literal", func() map[string]any {
 			return map[string]any{"literal": lc.text, "literal_quoted": fmt.Sprintf("%q", lc.text)}
 		}, func() {
-			if plugged {
+			if plugged && !lc.whole() {
 				lb := lexer.NewBuilder()
 				lb.UseTokenInterceptor(func(l *lexer.Lexer, next func() token.Token) token.Token {
 					if l.CurrentChar == '@' {
@@ -138,6 +144,7 @@ func checkLiterals(t *fw.T, lits []litCase, label string) {
 		}
 		t.Count("disagreements_checked", 1)
 		t.Count("literals_judged", 1)
+		t.Count("literals_judged_in_stratum_"+label, 1)
 		for k, got := range []string{gc, gp} {
 			if got == want {
 				continue
@@ -395,6 +402,56 @@ func runC07Adjacent(t *fw.T) {
 	checkLiterals(t, lits, "adjacent")
 }
 
+// literal sequences: what one literal holds must not change how the printer treats a later one. A first literal with
+// text that looks like the start of a comment, a string or a backtick string (`//`, `/*`, quotes, backticks, `${`),
+// optionally a comment line with such text, then a second literal - mostly a backtick string over several lines with
+// blanks at line ends - and the values of both as the completion value.
+var seqFirstPieces = []string{"//", "http://x/y", "/*", "*/", "'", `\"`, "`", `\\`, " ", "a", "${", "}", "//'", "/", "://", "\\\\", `\'`, "``", "#", "it's", "<-", "!--"}
+var seqBetween = []string{"", "", "", "// it's a \"note\n", "x = 1 // `tick\n", "// \"\n", "//\n", "x = '//' // '\n", "y = \"`\"\n"}
+
+func runC07Sequences(t *fw.T) {
+	r := t.Rand()
+	tpl := []string{"a", "  \n", " \n", "\t\n", "\n", "b  ", "//", "'", "\"", "  ", "\n  c", "\\`", "x \n y", "/*", " "}
+	var lits []litCase
+	for i := 0; i < 24; i++ {
+		var sb strings.Builder
+		q := []string{`"`, `'`, "`"}[[]int{0, 0, 0, 1, 1, 2}[r.IntN(6)]]
+		for k, n := 0, 1+r.IntN(4); k < n; k++ {
+			p := seqFirstPieces[r.IntN(len(seqFirstPieces))]
+			switch { // a piece that holds the delimiter bare is escaped piece by piece
+			case q == "'" && p != `\'`:
+				p = strings.ReplaceAll(p, "'", `\'`)
+			case q == "`":
+				p = strings.ReplaceAll(strings.ReplaceAll(p, "`", "\\`"), "${", "$ {")
+			}
+			sb.WriteString(p)
+		}
+		first := q + sb.String() + q
+		var second string
+		if r.IntN(4) > 0 {
+			sb.Reset()
+			for k, n := 0, 1+r.IntN(6); k < n; k++ {
+				sb.WriteString(tpl[r.IntN(len(tpl))])
+			}
+			second = "`" + sb.String() + "`"
+		} else {
+			q2 := []byte{'"', '\''}[r.IntN(2)]
+			second = string(q2) + gen.RandStrBody(r, q2) + string(q2)
+		}
+		prog := "w = " + first + "\n" + seqBetween[r.IntN(len(seqBetween))] + "v = " + second + ";\n[w, v, w + 1, v + 1].join(\"\\u0001\")"
+		cat := "sequence/two literals"
+		if i%2 == 1 {
+			cat = "sequence-nosemi/two literals"
+		}
+		lits = append(lits, litCase{prog, cat})
+		t.Distinct(prog)
+	}
+	checkLiterals(t, lits, "sequence")
+	if t.WantSample() {
+		t.Sample(map[string]any{"stratum": "literal-sequences", "program": lits[0].text})
+	}
+}
+
 func runC07Contexts(t *fw.T) {
 	r := t.Rand()
 	var base []litCase
@@ -465,7 +522,7 @@ func runC07Numbers(t *fw.T) {
 func init() {
 	fw.Register(&fw.Property{
 		ID: "C07", Level: "translation_validation",
-		Rule: "each literal text t is compiled inside `v = t` (compact and pretty) by the real lexer/parser/printer; node/V8 evaluates t and both emitted expressions; string values are compared as UTF-16 code-unit sequences, numbers as IEEE-754 bit patterns. Literals xjs rejects or V8 rejects in the source are outside the premise (counted). A literal-positions stratum places string and number literals as object keys, computed keys, array elements, call arguments and operands (the completion value is the value that position sees; for keys the property name). Exhaustive: every \\xHH, every \\uHHHH, every ASCII byte raw and after a backslash (both quote styles, alone and embedded); \\u{...} at all boundaries + 4096 sampled code points in 1-6 digit forms; line continuations, legacy octal, surrogates; random concatenations; backtick strings; all numeric shapes. programs = literals judged; distinct = distinct literal texts.",
+		Rule: "each literal text t is compiled inside `v = t` (compact and pretty) by the real lexer/parser/printer; node/V8 evaluates t and both emitted expressions; string values are compared as UTF-16 code-unit sequences, numbers as IEEE-754 bit patterns. Literals xjs rejects or V8 rejects in the source are outside the premise (counted). A literal-sequences stratum compiles programs of two literals (the first holding comment / string / backtick look-alikes, an optional comment line between them, the second mostly a multi-line backtick string with blanks at line ends) and compares the values of both. A literal-positions stratum places string and number literals as object keys, computed keys, array elements, call arguments and operands (the completion value is the value that position sees; for keys the property name). Exhaustive: every \\xHH, every \\uHHHH, every ASCII byte raw and after a backslash (both quote styles, alone and embedded); \\u{...} at all boundaries + 4096 sampled code points in 1-6 digit forms; line continuations, legacy octal, surrogates; random concatenations; backtick strings; all numeric shapes. programs = literals judged; distinct = distinct literal texts.",
 		Assumptions: []string{
 			"V8 (node 20) is the reference semantics of literal values",
 			"source texts are valid UTF-8",
@@ -482,6 +539,7 @@ func init() {
 			{Name: "numbers", Quick: 600, Thorough: 4000, Run: runC07Numbers},
 			{Name: "literal-positions", Quick: 1000, Thorough: 6000, Run: runC07Contexts},
 			{Name: "adjacent-literals", Quick: 800, Thorough: 5000, Run: runC07Adjacent},
+			{Name: "literal-sequences", Quick: 800, Thorough: 5000, Run: runC07Sequences},
 		},
 	})
 }
